@@ -587,6 +587,8 @@ def jobs(tier, seed):
                                              'conc_size': 1000}, 'weight': 10})
     js.append({'harness': 'fattree', 'cfg': {'k': 2, 'nflows': 2, 'tcp': False, 'e2e': True, 'server': 'SP', 'nclasses': 2},
                'weight': 10})
+    js.append({'harness': 'fattree', 'cfg': {'k': 2, 'nflows': 2, 'tcp': True, 'e2e': True, 'server': 'VirtualClock', 'nclasses': 1,
+                                             'conc_size': 100}, 'weight': 10})
     # larger trees (host pairs in one pod under different edge switches have detours no longer than the diameter)
     js.append({'harness': 'fattree', 'cfg': {'k': 6, 'nflows': 1, 'tcp': True, 'e2e': False, 'pin_src': True}, 'weight': 300,
                'opts': {'max_paths': 40000}})
